@@ -200,6 +200,13 @@ def generate(ctx):
             if ctx.mine(idx):
                 yield dict(rec, via=via)
             idx += 1
+    for j, (lname, lfields) in enumerate(COLLIDE_FIXED):
+        for via in COLLIDE_VIAS:
+            if ctx.mine(idx):
+                yield {"k": "collide", "fixed": j, "s": subseed("c06", "collide-fixed", j), "via": via}
+            idx += 1
+    for i in range(ctx.scale(40, 1500)):
+        yield {"k": "collide", "s": subseed("c06", ctx.seed, "collide", ctx.shard, i), "via": COLLIDE_VIAS[i % len(COLLIDE_VIAS)]}
     nvalid = ctx.scale(250, 3000)
     for i in range(nvalid):
         yield {"k": "valid", "s": subseed("c06", ctx.seed, "valid", ctx.shard, i), "via": VIAS[i % len(VIAS)]}
@@ -297,6 +304,200 @@ def build_def(st, case):
         seen.add(n)
         out.append((t, n))
     return name, out, {"slot": "rand-" + where, "family": "mutation", "hostile": hostile, "uniq": True}
+
+
+# ---- identifier collisions: a crafted definition behind a legitimate one ------------------------------
+# The descriptor identifier is (name, first 4 bytes of SHA-256(name + sum(fieldname + fieldtype))): no separators, so a
+# different split of the same characters into (type, name) pairs carries the identifier of the legitimate definition.
+COLLIDE_VIAS = ("stream", "stream-bin", "json")
+COLLIDE_FIXED = [
+    ("t/x", [("net.ipaddress", "src"), ("string[]", "tags")]),
+    ("t/y", [("string", "a"), ("string", "b")]),
+    ("demo/conn", [("net.ipaddress", "src"), ("string[]", "tags"), ("varint", "n")]),
+    ("a", [("uint16", "port"), ("net.tcp.Port", "p2")]),
+]
+
+
+def resplits(rng, fields, wl, want=6):
+    """Definitions whose (fieldname + fieldtype) characters concatenate to the same string as `fields` but are split
+    differently and lie OUTSIDE the grammar (valid re-splits are C03's subject)."""
+    s = "".join(n + t for t, n in fields)
+    out, seen = [], set()
+
+    def add(pairs):
+        pairs = [(t, n) for t, n in pairs]
+        key = tuple(pairs)
+        if key in seen or pairs == list(fields) or "".join(n + t for t, n in pairs) != s:
+            return
+        seen.add(key)
+        names = [n for _, n in pairs]
+        if len(set(names)) != len(names):
+            return
+        if H.valid_definition("t", pairs, wl)[0]:
+            return
+        out.append(pairs)
+
+    k = len(fields)
+    # boundary moved between a field's name and its type
+    for i, (t, n) in enumerate(fields):
+        for d in (1, 2, len(t) - 1, t.rfind(".") + 1 if "." in t else 1):
+            if 0 < d < len(t):
+                add(fields[:i] + [(t[d:], n + t[:d])] + fields[i + 1 :])
+        for d in (1, len(n) - 1):
+            if 0 < d < len(n):
+                add(fields[:i] + [(n[d:] + t, n[:d])] + fields[i + 1 :])
+    # characters moved between a type and the next field's name
+    for i in range(k - 1):
+        (t1, n1), (t2, n2) = fields[i], fields[i + 1]
+        for d in (1, len(n2) - 1, len(n2)):
+            if 0 < d <= len(n2):
+                add(fields[:i] + [(t1 + n2[:d], n1), (t2, n2[d:])] + fields[i + 2 :])
+        for d in (1, 2):
+            if d < len(t1):
+                add(fields[:i] + [(t1[:-d], n1), (t2, t1[-d:] + n2)] + fields[i + 2 :])
+    # everything in one field
+    add([("", s)])
+    add([(s, "")])
+    add([(s[len(s) // 2 :], s[: len(s) // 2])])
+    # random cut points, same number of fields
+    for _ in range(40):
+        if len(out) >= want + 8 or len(s) < 2 * k:
+            break
+        cuts = sorted(rng.sample(range(0, len(s) + 1), 2 * k - 1)) if len(s) + 1 >= 2 * k - 1 else None
+        if not cuts:
+            break
+        parts = [s[a:b] for a, b in zip([0] + cuts, cuts + [len(s)])]
+        add([(parts[2 * i + 1], parts[2 * i]) for i in range(k)])
+    rng.shuffle(out)
+    return out[:want]
+
+
+def collide_stream(name, legit, crafted, binary):
+    S = (lambda x: mp.Bin(_enc(x))) if binary else (lambda x: mp.Str(_enc(x)))
+    enc = refcodec.Encoder()
+    enc.header()
+    h = refcodec.descriptor_hash(name, legit)
+    assert h == refcodec.descriptor_hash(name, crafted)
+    for fields, mark in ((legit, "legitimate"), (crafted, "crafted")):
+        enc._frame(enc.p.pack(enc._ext(refcodec.T_DESC, [S(name), [[S(t), S(n)] for t, n in fields]])))
+        values = [None] * len(fields) + [mp.Str.of(mark), None, None, 1]
+        enc._frame(enc.p.pack(enc._ext(refcodec.T_RECORD, [[S(name), h], values])))
+    return enc.getvalue()
+
+
+def collide_json(name, legit, crafted):
+    h = refcodec.descriptor_hash(name, legit)
+    lines = []
+    for fields, mark in ((legit, "legitimate"), (crafted, "crafted")):
+        lines.append(json.dumps({"_type": "recorddescriptor", "_data": [name, [[t, n] for t, n in fields]]}))
+        lines.append(json.dumps({"_type": "record", "_recorddescriptor": [name, h], "_source": mark}))
+    return "\n".join(lines) + "\n"
+
+
+def execute_collide(ctx, case):
+    """legitimate descriptor + record, then a crafted out-of-grammar definition with the SAME identifier + a record
+    using it.  The crafted definition must be refused: nothing after the crafted descriptor is delivered, every delivered
+    record has the legitimate definition, exec'd sources keep a twin's shape, no tripwire."""
+    from flow.record import RecordReader, RecordStreamReader
+
+    st = ctx.state
+    wl = st["whitelist"]
+    via = case["via"]
+    rng = random.Random(case["s"])
+    st["uniq"] += 1
+    if "fixed" in case:
+        name, legit = COLLIDE_FIXED[case["fixed"]]
+        legit = list(legit)
+    else:
+        name = "c/" + gen.rand_ident(rng)
+        legit = [f for f in _valid_fields(rng, rng.choice([1, 2, 2, 3, 4]), wl, allow_keyword=False) if f[0] != "record"]
+        if not legit:
+            legit = [("string", "a")]
+    name = "%s/u%dx%d" % (name, ctx.shard, st["uniq"])  # a fresh class per case (the class cache is keyed by name + fields)
+    variants = resplits(rng, legit, wl)
+    if not variants:
+        ctx.event("collide_no_resplit")
+        return
+    spy = st["spy"]
+    marker = st["trip_marker"]
+    for crafted in variants:
+        try:
+            if via == "json":
+                text = collide_json(name, legit, crafted)
+            else:
+                data = collide_stream(name, legit, crafted, via == "stream-bin")
+        except (NotApplicable, UnicodeEncodeError):
+            ctx.event("not_applicable:collide")
+            continue
+        spy.drain()
+        trips = []
+
+        def flt(event, args):
+            if event in ("os.system", "subprocess.Popen") or (event == "open" and args and marker in repr(args[0])):
+                trips.append((event, repr(args)[:200]))
+            return False
+
+        got, exc = [], None
+        with probes.AuditLog(("os.system", "subprocess.Popen", "open"), filter=flt):
+            try:
+                if via == "json":
+                    path = os.path.join(st["tmp"], "files", "collide.json")
+                    with open(path, "w") as f:
+                        f.write(text)
+                    rd = RecordReader(path)
+                    try:
+                        for r in rd:
+                            got.append(r)
+                    finally:
+                        rd.close()
+                else:
+                    for r in RecordStreamReader(io.BytesIO(data)):
+                        got.append(r)
+            except Exception as e:  # noqa: BLE001 - any exception class is a rejection
+                exc = e
+        sources = spy.drain()
+        ctx.ev()
+        ctx.event("collide_sequences")
+        ctx.event("delivered:collide-" + via)
+        detail = {"via": via, "name": name, "legitimate": legit, "crafted": crafted, "records_delivered": len(got),
+                  "exception": type(exc).__name__ if exc is not None else None}
+        ctx.cell("collide", via, "raised" if exc is not None else "no-error", "delivered=%d" % min(len(got), 3))
+        if trips:
+            ctx.violation(None, "tripwire: %s fired while a definition was processed" % trips[0][0], detail=dict(detail, events=trips[:5]))
+        if len(got) >= 1:
+            ctx.event("collide_legitimate_record_delivered")
+        crafted_delivered = len(got) > 1 or any(observe.oval(getattr(r, "_source", None)) == ["str", "string", "crafted"] for r in got)
+        if crafted_delivered:
+            ctx.violation(None, "a record behind an out-of-grammar descriptor that re-uses a registered identifier was delivered via %s "
+                                "(the crafted definition was not refused)" % via, detail=detail)
+        elif exc is not None:
+            ctx.event("collide_crafted_refused_with_error")
+        else:
+            ctx.event("collide_crafted_not_delivered_without_error")
+        for r in got:
+            try:
+                rf = [(t, n) for t, n in r._desc.get_field_tuples()]
+                if not H.valid_definition(r._desc.name, rf, wl)[0]:
+                    ctx.violation(None, "definition with an invalid field accepted via %s (identifier collision)" % via,
+                                  detail=dict(detail, reported=rf))
+                elif rf != legit:
+                    ctx.violation(None, "a delivered record does not carry the legitimate definition (identifier collision)", detail=dict(detail, reported=rf))
+                observe.assert_typed(r, "collide")
+            except observe.Untyped as e:
+                ctx.violation(None, "record delivered in a collision sequence holds an untyped slot", detail=dict(detail, error=str(e)))
+        for src in sources:
+            ctx.event("exec_sources")
+            status, shp = source_shape(src) if isinstance(src, str) else ("nonstr", None)
+            ctx.event("exec_source:" + status)
+            if status != "compiled":
+                continue
+            shapes = [twin_shape(st, legit, wl), twin_shape(st, crafted, wl)]
+            ctx.event("shape_compared")
+            if shp not in [x for x in shapes if x is not None]:
+                ctx.violation(None, "source handed to exec has a different parse-tree shape than its benign twin (injection)",
+                              detail=dict(detail, source=src[:1200]))
+        ctx.nontrivial("collide", via, fp64(legit, crafted))
+        ctx.sample({"case": case, "legitimate": legit, "crafted": crafted, "outcome": detail["exception"]}, kind="collide:" + via)
 
 
 # ---- delivery paths ----------------------------------------------------------------------------------
@@ -614,6 +815,8 @@ def _check_record(ctx, st, via, desc, r, declared_fields, given, what):
 
 # ---- execute -----------------------------------------------------------------------------------------
 def execute(ctx, case):
+    if case["k"] == "collide":
+        return execute_collide(ctx, case)
     st = ctx.state
     wl = st["whitelist"]
     via = case["via"]
@@ -680,6 +883,7 @@ def execute(ctx, case):
         ctx.event("not_applicable:" + via)
         return
     ctx.ev()
+    ctx.event("delivered:" + via)
     what = "%s/%s via %s" % (info["slot"], info["family"], via)
     detail_def = {"name": name, "fields": fields, "via": via, "hostile": info["hostile"]}
 
@@ -826,8 +1030,11 @@ def finish(ctx):
     ctx.require(ev.get("exec_sources", 0) > 0, "the exec spy never saw a source (shadowing flow.record.base.exec did not take effect)")
     ctx.require(ev.get("shape_compared", 0) > 0, "no exec'd source was compared with a twin")
     ctx.require(ev.get("tripwire_windows", 0) > 0, "tripwires never armed")
+    ctx.require(ev.get("collide_sequences", 0) > 0 and ev.get("collide_legitimate_record_delivered", 0) > 0,
+                "no identifier-collision sequence delivered its legitimate record (sequence class never ran)")
     for v in TEXT_VIAS:
-        ctx.require(ev.get("text_form_accepted:" + v, 0) > 0, "no definition without a field list was accepted via %s (path not exercised)" % v)
+        ctx.require(ev.get("delivered:" + v, 0) > 0, "no definition without a field list was delivered via %s (path never ran)" % v)
+        ctx.note("text_form_accepted:" + v, ev.get("text_form_accepted:" + v, 0))
         ctx.require(ev.get("registry_unavailable:" + v, 0) == 0, "the descriptor registry of the reader could not be inspected (%s)" % v)
     ctx.require(ev.get("twin_unavailable", 0) * 20 <= max(ev.get("exec_source:compiled", 0), 1), "benign twins could not be generated for more than 5% of the sources")
     for q in ANCHORS[:3]:
